@@ -38,6 +38,7 @@ class HB:
         self.chan_s = {}
         self.chan_q = {}
         self.token = {}
+        self.arc = {}             # Arc -> view released by the drops of its handles
         self.scg = {}
         self.cellW = {}
         self.cellR = {}
@@ -184,6 +185,19 @@ class HB:
             h = int(w[1])
             if res.isdigit() and self.chan_q.get(h):
                 join(c, self.chan_q[h].pop(0))
+        elif op == "ad":
+            # dropping a handle releases; the drop that destroys the value acquires every earlier drop
+            if res in ("-", "1"):
+                k = int(w[1])
+                join(self.arc.setdefault(k, {}), c)
+                if res == "1":
+                    join(c, self.arc[k])
+        elif op in ("ag", "au", "an"):
+            # get_mut / try_unwrap that find the handle unique acquire the drops of the other handles
+            # (std: the Acquire that pairs with the Release decrement in drop); loom acquires in every case
+            k = int(w[1])
+            if res != "x" and (self.strong or (op in ("ag", "au") and res == "1")):
+                join(c, self.arc.get(k, {}))
         elif op == "up":
             b = int(w[1])
             if self.strong:
